@@ -7,6 +7,9 @@ Only entries with "ready": true are claimed in MANIFEST.json."""
 import glob, json, os
 
 ROOT = os.path.dirname(os.path.abspath(__file__))
+# Every package with "ready": true can be run by the driver; only properties listed in claimed.txt (checks
+# reviewed and run at several seeds by the coordinator) are claimed in MANIFEST.json and built by setup.
+CLAIMED = set(open(os.path.join(ROOT, "claimed.txt")).read().split())
 CHECKS = {}
 for f in sorted(glob.glob(os.path.join(ROOT, "harness", "c[0-9][0-9]", "check.json"))):
     cfg = json.load(open(f))
